@@ -40,7 +40,7 @@ COMPONENTS = {"real": ["TunnelEndpoint (send, set_anonymity, set_tunnel_communit
 ASSUMPTIONS = ["while anonymity is switched off for a prefix its packets may use the raw socket (that is what the switch means)"]
 REACH = ["anon_send_no_circuit_queued", "anon_send_over_ready_circuit", "queue_overflow", "detached_drop", "plain_raw_ok",
          "circuit_closing_with_queue", "net_anon_delivered_via_exit", "net_hop_crashed", "wrong_circuit_not_used",
-         "second_endpoint_same_prefix", "net_blind_exit_circuit_ready"]
+         "second_endpoint_same_prefix", "net_blind_exit_circuit_ready", "service_with_statistics", "service_without_statistics"]
 
 ALPHA = "APRWCXDTNYQO"
 ANON_PREFIX = b"\x00\x02" + b"\xa1" * 20
@@ -55,6 +55,9 @@ def cases(tier: str, base_seed: int):  # noqa: ANN201
     alpha = ALPHA if tier == "thorough" else "APRWCXDNQO"
     n = 0
     net_i = 0
+    for stats in (True, False):
+        for cls in (("DHTDiscoveryCommunity",) if tier == "quick" else ("DHTDiscoveryCommunity", "DiscoveryCommunity")):
+            yield {"scenario": "service", "seed": base_seed + 7000 + int(stats), "knobs": {}, "stats": stats, "anon_overlay": cls}
     plen = 2 if tier == "quick" else 3
     prefixes = ["".join(p) for p in itertools.product(alpha, repeat=plen)]
     if plen > 2:
@@ -526,7 +529,84 @@ def run_net(c: Case, case: dict) -> dict:  # noqa: C901, PLR0915
     return c.result(evaluations=max(1, len(case["ops"])))
 
 
+# ------------------------------------------------------------------------------------------------ service scenario
+def run_service(c: Case, case: dict) -> dict:
+    """
+    An unmodified ``ipv8_service.IPv8`` built from the shipped default configuration in which ONE overlay asks for anonymity
+    (``initialize: {anonymize: True}``), with message statistics on or off, next to a plain bootstrap node.  No exit exists, so the
+    anonymized overlay's packets can only wait in the queue: none of them may leave from the node's own address.
+    """
+    from ipv8.configuration import ConfigBuilder
+    from ipv8.messaging.anonymization.endpoint import TunnelEndpoint
+    from ipv8_service import IPv8
+
+    from simkit.node import SimNode
+
+    world, net = c.world, c.net
+    anon_cls = case.get("anon_overlay", "DHTDiscoveryCommunity")
+    nodes = []
+    st: dict = {}
+
+    async def main() -> None:
+        for i in range(2):
+            node = SimNode(world, f"n{i}", f"1.0.0.{i + 1}", ip6=f"fd00::{i + 1}")
+            cfg = ConfigBuilder().finalize()
+            cfg["logger"] = {"level": "CRITICAL"}
+            cfg["keys"][0]["file"] = None
+            for o in cfg["overlays"]:
+                for bs in o["bootstrappers"]:
+                    bs["init"] = {"ip_addresses": [("1.0.0.2", 8090)], "dns_addresses": [], "bootstrap_timeout": 30.0}
+                if i == 0 and o["class"] == anon_cls:
+                    o["initialize"] = dict(o["initialize"], anonymize=True)
+            node.ipv8 = node.call(IPv8, cfg, enable_statistics=bool(case.get("stats")) and i == 0)
+            await node.acall(node.ipv8.start)
+            node.port = 8090
+            nodes.append(node)
+        me = nodes[0]
+        anon = next(o for o in me.ipv8.overlays if type(o).__name__ == anon_cls)
+        plain = [o for o in me.ipv8.overlays if o is not anon]
+        st["prefix"] = anon.get_prefix()
+        st["plain_prefixes"] = {o.get_prefix() for o in plain}
+        st["stack"] = []
+        ep = me.ipv8.endpoint
+        while ep is not None and len(st["stack"]) < 5:
+            st["stack"].append(type(ep).__name__)
+            ep = getattr(ep, "endpoint", None)
+        world.probe("service_with_statistics" if case.get("stats") else "service_without_statistics")
+        for _ in range(6):
+            await asyncio.sleep(5.0)
+            me.call(anon.bootstrap)
+            pkt = me.call(anon.create_introduction_request, ("1.0.0.2", 8090))
+            me.call(anon.endpoint.send, ("1.0.0.2", 8090), pkt)
+        await asyncio.sleep(2.0)
+        for n in nodes:
+            await n.acall(n.ipv8.stop)
+
+    seen_plain = {"n": 0}
+
+    def on_send(pkt, fate) -> None:  # noqa: ANN001
+        if pkt.src_node == "n0" and st.get("prefix") and pkt.data[:22] == st["prefix"]:
+            c.violate("never_raw", "anonymized_packet_sent_on_raw_socket",
+                      f"ipv8_service.IPv8 (statistics {'on' if case.get('stats') else 'off'}, endpoint stack {st.get('stack')}): a datagram "
+                      f"with the prefix of the overlay configured with anonymize=True left {pkt.src} towards {pkt.dst}")
+        elif pkt.src_node == "n0" and pkt.data[:22] in st.get("plain_prefixes", ()):
+            seen_plain["n"] += 1
+    net.on_send.append(on_send)
+    world.run(main())
+    if not seen_plain["n"]:
+        c.violate("plain_unaffected", "plain_overlay_traffic_altered", "the overlays that did not ask for anonymity sent nothing at all")
+    else:
+        world.probe("plain_raw_ok")
+    c.nontrivial(f"service/{bool(case.get('stats'))}/{anon_cls}")
+    world.trace.event("c07svc", None, (bool(case.get("stats")), seen_plain["n"] > 0))
+    c.sample = {"scenario": "service", "statistics": bool(case.get("stats")), "endpoint_stack": st.get("stack"), "anonymized": anon_cls}
+    del TunnelEndpoint
+    return c.result(evaluations=6)
+
+
 def execute(case: dict) -> dict:
+    if case["scenario"] == "service":
+        return run_service(Case(case, net=True, first_only=False), case)
     if case["scenario"] == "api":
         c = Case(case, first_only=False)
         return run_api(c, case)
